@@ -4,6 +4,7 @@ import (
 	"go/constant"
 	"go/token"
 	"go/types"
+	"sort"
 	"strings"
 
 	"golang.org/x/tools/go/ssa"
@@ -61,7 +62,7 @@ func isSentinelCompare(cond ssa.Value, x ssa.Value) (string, bool) {
 	if !ok || g.Pkg == nil {
 		return "", false
 	}
-	return g.Pkg.Pkg.Path() + "." + g.Name(), true
+	return g.Pkg.Pkg.Path() + "." + globalName(g), true
 }
 
 // errPropOpts configures ruleErrProp for one function.
@@ -227,13 +228,110 @@ func ruleDaemonLog(r *Run) {
 		}
 	}
 	recv := ff.Params[0]
+	// the iterator's methods and helpers that take the iterator: function -> its iterator parameter
+	recvOf := map[*ssa.Function]ssa.Value{pn: pn.Params[0]}
+	for changed := true; changed; {
+		changed = false
+		for g, rv := range recvOf {
+			for _, c := range callsIn(g) {
+				callee := staticCallee(c)
+				if callee == nil || callee.Blocks == nil || callee.Pkg != pn.Pkg || recvOf[callee] != nil {
+					continue
+				}
+				for i, a := range c.Common().Args {
+					if i < len(callee.Params) && unspill(a) == rv {
+						recvOf[callee] = callee.Params[i]
+						changed = true
+					}
+				}
+			}
+		}
+	}
+	var grp []*ssa.Function
+	for g := range recvOf {
+		grp = append(grp, g)
+	}
+	sort.Slice(grp, func(i, j int) bool { return grp[i].Pos() < grp[j].Pos() })
+	parentOf := func(v ssa.Value) *ssa.Function {
+		if in, ok := v.(ssa.Instruction); ok {
+			return in.Parent()
+		}
+		return nil
+	}
 	isRecvFieldAddr := func(v ssa.Value, name string) bool {
 		f, base, ok := fieldNameOf(v)
-		return ok && f == name && base == ssa.Value(recv)
+		return ok && f == name && (base == recv || base == recvOf[parentOf(v)])
 	}
 	isRecvFieldLoad := func(v ssa.Value, name string) bool {
 		f, base, ok := loadOfField(v)
-		return ok && f == name && base == ssa.Value(recv)
+		return ok && f == name && (base == recv || base == recvOf[parentOf(v)])
+	}
+	// lift: the instruction of parseNext that stands for `in` (itself, or the call of the
+	// helper that contains it). A helper instruction that must have run (before=true) is
+	// only lifted when it dominates every return of its helper.
+	lift := func(in ssa.Instruction, before bool) ssa.Instruction {
+		for d := 0; d < 3 && in != nil && in.Parent() != pn; d++ {
+			h := in.Parent()
+			if before {
+				for _, ret := range returnsOf(h) {
+					if !instrDominates(in, ret) {
+						return nil
+					}
+				}
+			}
+			var site ssa.Instruction
+			n := 0
+			for _, g := range grp {
+				for _, c := range callsIn(g) {
+					if staticCallee(c) == h {
+						site = c
+						n++
+					}
+				}
+			}
+			if n != 1 {
+				return nil
+			}
+			in = site
+		}
+		return in
+	}
+	before := func(a, b ssa.Instruction) bool {
+		if a == nil || b == nil {
+			return false
+		}
+		if a.Parent() == b.Parent() {
+			return instrDominates(a, b)
+		}
+		la, lb := lift(a, true), lift(b, false)
+		return la != nil && lb != nil && la != lb && instrDominates(la, lb)
+	}
+	// retLeaves: a value obtained from a helper of the group is resolved to what the helper returns
+	var retLeaves func(v ssa.Value, depth int) []ssa.Value
+	retLeaves = func(v ssa.Value, depth int) []ssa.Value {
+		var out []ssa.Value
+		for _, lv := range phiLeaves(stripConv(v)) {
+			lv = stripConv(lv)
+			var call *ssa.Call
+			idx := 0
+			if c, i, ok := extractOf(lv); ok {
+				call, idx = c, i
+			} else if c, ok := lv.(*ssa.Call); ok {
+				call = c
+			}
+			if call != nil && depth < 3 {
+				if h := staticCallee(call); h != nil && recvOf[h] != nil && h != pn {
+					for _, ret := range returnsOf(h) {
+						if idx < len(ret.Results) {
+							out = append(out, retLeaves(ret.Results[idx], depth+1)...)
+						}
+					}
+					continue
+				}
+			}
+			out = append(out, lv)
+		}
+		return out
 	}
 
 	// ---- reference sibling constants ------------------------------------
@@ -264,8 +362,22 @@ func ruleDaemonLog(r *Run) {
 	}
 	// ReadFull(i.rd, i.header[:])
 	var readFull, copyN *ssa.Call
+	for _, g := range grp {
+		for _, c := range callsIn(g) {
+			call, ok := c.(*ssa.Call)
+			if !ok {
+				continue
+			}
+			if callIs(call, "io", "ReadFull") {
+				readFull = call
+			}
+			if callIs(call, "io", "CopyN") {
+				copyN = call
+			}
+		}
+	}
 	for _, c := range callsIn(ff) {
-		if call, ok := c.(*ssa.Call); ok {
+		if call, ok := c.(*ssa.Call); ok && false {
 			if callIs(call, "io", "ReadFull") {
 				readFull = call
 			}
@@ -353,54 +465,69 @@ func ruleDaemonLog(r *Run) {
 
 	// typ = header[fdIndex]; frameSize = BigEndian.Uint32(header[sizeIndex:sizeIndex+4]); CopyN size = int64(frameSize)
 	var typVal, sizeCall ssa.Value
-	allInstrs(ff, func(in ssa.Instruction) {
-		switch x := in.(type) {
-		case *ssa.IndexAddr:
-			if isRecvFieldAddr(x.X, "header") {
-				if idx, ok := constInt(x.Index); ok {
-					if idx != intOf(fdIndex) {
+	for _, g := range grp {
+		allInstrs(g, func(in ssa.Instruction) {
+			switch x := in.(type) {
+			case *ssa.IndexAddr:
+				if isRecvFieldAddr(x.X, "header") {
+					if idx, ok := constInt(x.Index); ok {
+						if idx != intOf(fdIndex) {
+							good = false
+							oc.Fail(r.pos(x.Pos()), "stream type is read from header[%d], stdcopy writes it at [%d]", idx, intOf(fdIndex))
+						}
+						for _, ref := range *x.Referrers() {
+							if u, ok := ref.(*ssa.UnOp); ok {
+								typVal = u
+							}
+						}
+					} else {
 						good = false
-						oc.Fail(r.pos(x.Pos()), "stream type is read from header[%d], stdcopy writes it at [%d]", idx, intOf(fdIndex))
+						oc.Undecide(r.pos(x.Pos()), "non-constant header index")
 					}
-					for _, ref := range *x.Referrers() {
-						if u, ok := ref.(*ssa.UnOp); ok {
-							typVal = u
+				}
+			case *ssa.Call:
+				if callee := x.Common().StaticCallee(); callee != nil && callee.Pkg != nil && callee.Pkg.Pkg.Path() == "encoding/binary" {
+					sizeCall = x
+					if !(strings.Contains(callee.String(), "bigEndian") && callee.Name() == "Uint32") {
+						good = false
+						oc.Fail(r.pos(x.Pos()), "frame size is decoded with %s, stdcopy writes binary.BigEndian.PutUint32", callee.String())
+					}
+					sl, ok := x.Call.Args[len(x.Call.Args)-1].(*ssa.Slice)
+					if !ok || !isRecvFieldAddr(sl.X, "header") {
+						good = false
+						oc.Fail(r.pos(x.Pos()), "frame size is not decoded from the header")
+					} else {
+						lo, okl := constInt(sl.Low)
+						hi, okh := constInt(sl.High)
+						if sl.Low == nil {
+							lo, okl = 0, true
+						}
+						if !okl || !okh || lo != intOf(sizeIndex) || hi != intOf(sizeIndex)+4 {
+							good = false
+							oc.Fail(r.pos(x.Pos()), "frame size is decoded from header[%d:%d], stdcopy writes it at [%d:%d]", lo, hi, intOf(sizeIndex), intOf(sizeIndex)+4)
 						}
 					}
-				} else {
-					good = false
-					oc.Undecide(r.pos(x.Pos()), "non-constant header index")
 				}
 			}
-		case *ssa.Call:
-			if callee := x.Common().StaticCallee(); callee != nil && callee.Pkg != nil && callee.Pkg.Pkg.Path() == "encoding/binary" {
-				sizeCall = x
-				if !(strings.Contains(callee.String(), "bigEndian") && callee.Name() == "Uint32") {
-					good = false
-					oc.Fail(r.pos(x.Pos()), "frame size is decoded with %s, stdcopy writes binary.BigEndian.PutUint32", callee.String())
-				}
-				sl, ok := x.Call.Args[len(x.Call.Args)-1].(*ssa.Slice)
-				if !ok || !isRecvFieldAddr(sl.X, "header") {
-					good = false
-					oc.Fail(r.pos(x.Pos()), "frame size is not decoded from the header")
-				} else {
-					lo, okl := constInt(sl.Low)
-					hi, okh := constInt(sl.High)
-					if sl.Low == nil {
-						lo, okl = 0, true
-					}
-					if !okl || !okh || lo != intOf(sizeIndex) || hi != intOf(sizeIndex)+4 {
-						good = false
-						oc.Fail(r.pos(x.Pos()), "frame size is decoded from header[%d:%d], stdcopy writes it at [%d:%d]", lo, hi, intOf(sizeIndex), intOf(sizeIndex)+4)
-					}
-				}
+		})
+	}
+	sizeIs := func(v ssa.Value) bool {
+		n := 0
+		for _, lv := range retLeaves(v, 0) {
+			if _, isC := lv.(*ssa.Const); isC {
+				continue // the zero a helper returns beside an error / end of stream
 			}
+			if lv != sizeCall {
+				return false
+			}
+			n++
 		}
-	})
+		return n > 0
+	}
 	if sizeCall == nil || typVal == nil {
 		good = false
 		oc.Fail(r.pos(pn.Pos()), "stream type or frame size read not found")
-	} else if stripConv(copyN.Call.Args[2]) != sizeCall {
+	} else if !sizeIs(copyN.Call.Args[2]) {
 		good = false
 		oc.Fail(r.pos(copyN.Pos()), "the payload read asks for %s bytes, not exactly the frame size", describe(copyN.Call.Args[2], 0))
 	}
@@ -436,14 +563,12 @@ func ruleDaemonLog(r *Run) {
 	oo := r.Ob("PV-ORDER", "dockerlog.(*streamIter).parseNext buffer", "the frame buffer is reset before each payload read and the record body is a copy of it (String()), never an alias of the reused buffer")
 	var reset ssa.CallInstruction
 	var strCall *ssa.Call
-	for _, c := range callsIn(ff) {
-		if callIs(c, "bytes", "(*Buffer).Reset") && isRecvFieldAddr(c.Common().Args[0], "buf") {
-			reset = c
-		}
-	}
-	for _, c := range callsIn(pn) {
-		if call, ok := c.(*ssa.Call); ok && callIs(call, "bytes", "(*Buffer).String") {
-			if f, base, ok := fieldNameOf(call.Call.Args[0]); ok && f == "buf" && base == ssa.Value(pn.Params[0]) {
+	for _, g := range grp {
+		for _, c := range callsIn(g) {
+			if callIs(c, "bytes", "(*Buffer).Reset") && isRecvFieldAddr(c.Common().Args[0], "buf") {
+				reset = c
+			}
+			if call, ok := c.(*ssa.Call); ok && callIs(call, "bytes", "(*Buffer).String") && isRecvFieldAddr(call.Call.Args[0], "buf") {
 				strCall = call
 			}
 		}
@@ -454,25 +579,43 @@ func ruleDaemonLog(r *Run) {
 		frameRead = ffCall
 	}
 	ogood := true
-	if reset == nil || !instrDominates(reset, copyN) {
+	if reset == nil || !before(reset, copyN) {
 		ogood = false
 		oo.Fail(r.pos(copyN.Pos()), "buf.Reset() does not precede the payload read on every path")
 	}
+	// the line parser: the same-package function that is given the frame's text and the record
 	var pdl *ssa.Call
-	for _, c := range callsIn(pn) {
-		if call, ok := c.(*ssa.Call); ok && callIs(call, dl, "parseDockerLine") {
-			pdl = call
+	pdlInput := -1
+	for _, g := range grp {
+		for _, c := range callsIn(g) {
+			call, ok := c.(*ssa.Call)
+			if !ok {
+				continue
+			}
+			callee := staticCallee(call)
+			if callee == nil || callee.Blocks == nil || callee.Pkg != pn.Pkg || recvOf[callee] != nil {
+				continue
+			}
+			for i, a := range call.Call.Args {
+				if strCall != nil && a == ssa.Value(strCall) {
+					pdl, pdlInput = call, i
+				}
+			}
+			if pdl == nil && callIs(call, dl, "parseDockerLine") {
+				pdl = call
+			}
 		}
 	}
+	_ = frameRead
 	if pdl == nil {
 		ogood = false
-		oo.Fail(r.pos(pn.Pos()), "parseDockerLine is not called")
+		oo.Fail(r.pos(pn.Pos()), "the line parser (parseDockerLine) is not called with i.buf.String()")
 	} else {
-		if strCall == nil || pdl.Call.Args[1] != ssa.Value(strCall) {
+		if strCall == nil || pdlInput < 0 {
 			ogood = false
-			oo.Fail(r.pos(pdl.Pos()), "parseDockerLine is given %s, not i.buf.String()", describe(pdl.Call.Args[1], 0))
+			oo.Fail(r.pos(pdl.Pos()), "parseDockerLine is not given i.buf.String()")
 		}
-		if !instrDominates(frameRead, pdl) {
+		if !before(copyN, pdl) {
 			ogood = false
 			oo.Fail(r.pos(pdl.Pos()), "the line is parsed before the payload is read")
 		}
@@ -539,9 +682,24 @@ func ruleDaemonLog(r *Run) {
 
 	// ---- faults -----------------------------------------------------------
 	ruleErrProp(r, pn, errPropOpts{AllowSentinel: map[string][]string{"io.ReadFull": {"io.EOF", "io.ErrUnexpectedEOF"}}, Inline: true})
-	if pdlFn := p.Func(dockerlogPkg, "parseDockerLine"); pdlFn != nil {
+	pdlFn := p.Func(dockerlogPkg, "parseDockerLine")
+	recIdx := 2
+	if pdlFn == nil && pdl != nil {
+		pdlFn = staticCallee(pdl) // renamed / re-parameterised: identified by its role
+	}
+	if pdlFn != nil && pdl != nil && staticCallee(pdl) == pdlFn {
+		for i, a := range pdl.Call.Args {
+			if _, isPtr := a.Type().Underlying().(*types.Pointer); isPtr && strings.HasSuffix(a.Type().String(), "Record") {
+				recIdx = i
+			}
+		}
+	}
+	if pdlInput < 0 {
+		pdlInput = 1
+	}
+	if pdlFn != nil && pdlInput < len(pdlFn.Params) && recIdx < len(pdlFn.Params) {
 		ruleErrProp(r, pdlFn, errPropOpts{})
-		ruleParseDockerLine(r, pdlFn)
+		ruleParseDockerLine(r, pdlFn, pdlInput, recIdx)
 	} else {
 		r.Ob("ANCHOR", "dockerlog.parseDockerLine", "anchor function resolves").Fail("-", "not found")
 	}
@@ -667,7 +825,7 @@ func ruleDaemonLog(r *Run) {
 	}
 }
 
-func ruleParseDockerLine(r *Run, fn *ssa.Function) {
+func ruleParseDockerLine(r *Run, fn *ssa.Function, inputIdx, recIdx int) {
 	o := r.Ob("PV-CONST", "dockerlog.parseDockerLine", "the line is cut at the first space: the part before is parsed as RFC3339Nano into both timestamps, the part after is the body, unaltered")
 	good := true
 	var cut, tparse *ssa.Call
@@ -685,7 +843,7 @@ func ruleParseDockerLine(r *Run, fn *ssa.Function) {
 		o.Fail(r.pos(fn.Pos()), "strings.Cut call=%v time.Parse call=%v", cut != nil, tparse != nil)
 		return
 	}
-	input, rec := fn.Params[1], fn.Params[2]
+	input, rec := fn.Params[inputIdx], fn.Params[recIdx]
 	if cut.Call.Args[0] != ssa.Value(input) {
 		good = false
 		o.Fail(r.pos(cut.Pos()), "strings.Cut is applied to %s", describe(cut.Call.Args[0], 0))
